@@ -1,6 +1,8 @@
 import NmVerif.Proto
 import NmVerif.NN.Conv
 import NmVerif.NN.Pool
+import NmVerif.NN.PoolReduce
+import NmVerif.NN.F32
 namespace NmVerif.Driver.C17
 open NmVerif NmVerif.Proto NmVerif.NN
 
@@ -64,6 +66,25 @@ def handle : Handler := fun op a =>
         match (allIdx os).mapM (poolFold s k st) with
         | some vals => pure s!"ok shape={fmtNats os} data={fmtNats vals}"
         | none => pure "ub:window"
+  | "max_pool2d" => orBad do
+      let k ← a.nats "kernel"; let st ← a.nats "stride"; let c ← a.nat "ceil"
+      -- integer-valued data: evaluated over Int (exact); otherwise over Float32
+      match mkArr a "x" with
+      | some x =>
+        match maxPool2d x k st (c != 0) with
+        | none => pure "ub:rank"
+        | some v =>
+          match (allIdx v.shape).mapM v.get with
+          | some vals => pure s!"ok shape={fmtNats v.shape} data={fmtInts vals}"
+          | none => pure "ub:window"
+      | none =>
+        let x ← F32.mkArr a "x"
+        pure (F32.fmtView (maxPool2d x k st (c != 0)))
+  | "avg_pool2d" => orBad do
+      -- avg_reducer_t: elements promoted to float32, summed from the first element, divided by the slice's element count
+      let x ← F32.mkArr a "x"
+      let k ← a.nats "kernel"; let st ← a.nats "stride"; let c ← a.nat "ceil"
+      pure (F32.fmtView (avgPool2d (· + ·) (fun s n => s / n.toFloat32) x k st (c != 0)))
   | _ => none
 
 end NmVerif.Driver.C17
